@@ -23,10 +23,11 @@ PROFILE = {
     "C03": dict(kinds=("fd", "tk", "ev"), quick=300, thorough=5000,
                 modes=["random", "multiready", "multiready", "churn", "regchurn", "regchurn", "regchurn", "erronly"], nfd=4),
     "C04": dict(kinds=("tm", "fd", "tk"), quick=300, thorough=5000,
-                modes=["random", "timers", "timers", "timers", "heap", "heap", "tasks"]),
-    "C05": dict(kinds=("tm", "tk", "fd"), quick=300, thorough=5000, modes=["random", "timers", "timers", "heap", "heap", "heap"]),
+                modes=["random", "timers", "timers", "timers", "heap", "heap", "tasks", "never"]),
+    "C05": dict(kinds=("tm", "tk", "fd"), quick=300, thorough=5000, modes=["random", "timers", "timers", "heap", "heap", "heap", "never"]),
     "C06": dict(kinds=("tk", "fd", "tm", "ev"), quick=300, thorough=5000),
-    "C07": dict(kinds=None, quick=260, thorough=4000),
+    "C07": dict(kinds=None, quick=260, thorough=4000,
+                modes=["random", "random", "multiready", "churn", "regchurn", "timers", "timers", "tasks", "events", "heap", "never"]),
     "C15": dict(kinds=None, quick=220, thorough=3000),
 }
 
@@ -117,6 +118,9 @@ def run(pid, tier, seed, replay=None):
                         for j in range(6 if tier == "quick" else 60):
                             scripts.append(mtcheck.mk("C01x%d.%s.%d" % (seed, name, j), body, "epoll " + opts, det=0,
                                                       seed=rr.randint(1, 1 << 30), sticky=rr.choice([0, 1, 3])))
+            if pid in ("C01", "C03"):
+                import mtcheck
+                scripts += mtcheck.mt_fd_scripts(pid, seed, 6 if tier == "quick" else 60)
             if pid == "C07":
                 # a failed event registration in a threaded program, then a successful one that another
                 # thread posts to ("registration calls that report failure leave the loop exactly as it was")
@@ -191,7 +195,7 @@ def run(pid, tier, seed, replay=None):
             # splice missing: the read/write fallback of iv_fd_pump
             import check_c17
             check_c17.run_fallback(tier, seed, sc, rep)
-        if pid == "C04" and not replay:
+        if pid in ("C04", "C07") and not replay:
             # "never oversleeps / fires exactly once" presupposes an intact timer store: the
             # lock-step and order runs of the store itself (shared with C05)
             import check_c05heap
@@ -214,14 +218,18 @@ def run(pid, tier, seed, replay=None):
 # the "when" is decided by the timing rules of C04 on the (multi-timer) programs of the C05 profile
 # C07 "failed registrations leave the loop exactly as it was": what a failed registration must not
 # disturb includes the delivery of later posts (rules of C08 / C09 on the programs of the C07 profile)
-ALSO = {"C05": ("C04:oversleep", "C04:early"), "C07": ("C08:lost", "C09:lost")}
+# C07 "it blocks in the kernel only when nothing is due, and every wake-up makes progress": blocking with a
+# descriptor ready, a timer due or a task queued is decided by the rules of C02 / C04 / C06 on C07's programs
+ALSO = {"C05": ("C04:oversleep", "C04:early", "C04:starved"),
+        "C07": ("C08:lost", "C09:lost", "C04:oversleep", "C04:starved", "C06:nonzero-timeout", "C06:sleep-with-task",
+                "C02:sleep-on-ready")}
 
 # rules whose antecedent must have held at least once in a (non-replay) run
 RULES = {
     "C01": ["C01:cb-after-unreg", "C01:oneshot-still-registered"],
     "C02": ["C02:sleep-on-ready", "C02:due-not-dispatched", "C02:not-reported"],
     "C03": ["C03:not-ready", "C03:stale-handler", "C03:wrong-cookie", "C03:twice"],
-    "C04": ["C04:early", "C04:twice", "C04:oversleep"],
+    "C04": ["C04:early", "C04:twice", "C04:oversleep", "C04:starved"],
     "C05": ["C05:order"],
     "C06": ["C06:twice", "C06:registered-at-entry", "C06:starve", "C06:nonzero-timeout", "C06:sleep-with-task"],
     "C07": ["C07:return-with-objs", "C07:poll-without-objs", "C07:cb-outside-main", "C07:nested"],
